@@ -820,3 +820,175 @@ Proof.
   destruct (ref_first id l); destruct (ref_has id l); destruct (rlen <? ref_count id l);
   cbn iota beta; repeat split; discriminate.
 Qed.
+
+(* ------------------------------------------------------------------ *)
+(* I. every operation refines the reference; sequences                 *)
+
+Ltac rs := repeat split; try assumption; try discriminate; try reflexivity.
+
+Definition op_wf (o : op) : Prop :=
+  match o with
+  | OSetU32 _ v _ | OAddU32 _ v _ => 0 <= v < 4294967296
+  | _ => True
+  end.
+Definition not_path (o : op) : Prop := match o with OSetPath _ _ _ => False | _ => True end.
+
+(* outcome of one step against the reference: performed = the reference's
+   list, refused = unchanged (and the reference refuses too) *)
+Definition refines (bounded : bool) (l : list opt) (o : op) (l' : list opt) (e : Z) : Prop :=
+  sorted l' /\
+  match ref_step bounded l o with
+  | Some r => e = ENone /\ l' = r
+  | None => e <> ENone /\ l' = l
+  end.
+
+Lemma sorted_ref_add l o : sorted l -> sorted (ref_add o l).
+Proof. intros Hs. destruct (add_refines l o Hs) as [E S]. rewrite <- E. assumption. Qed.
+Lemma sorted_ref_set l o : sorted l -> sorted (ref_set o l).
+Proof. intros Hs. destruct (set_refines l o Hs) as [E S]. rewrite <- E. assumption. Qed.
+Lemma sorted_ref_remove l id : sorted l -> sorted (ref_remove id l).
+Proof. intros Hs. destruct (remove_refines l id Hs) as [E S]. rewrite <- E. assumption. Qed.
+
+Theorem ostep_refines l o : sorted l -> op_wf o -> not_path o ->
+  let '(l', _, e) := ostep l o in refines true l o l' e.
+Proof.
+  intros Hs Hwf Hnp. unfold refines.
+  destruct o as [id v|id v|id|id v b|id v b|id v b|id v b|id p b|ins b| |]; cbn [ostep ref_step op_wf not_path andb] in *.
+  - destruct (set_refines l (id, v) Hs) as [E S]. rewrite E in *. rs.
+  - destruct (add_refines l (id, v) Hs) as [E S]. rewrite E in *. rs.
+  - destruct (remove_refines l id Hs) as [E S]. rewrite E in *. rs.
+  - unfold set_bytes, URIPath, maxPathValue, uri_path.
+    destruct (b <? len v); cbn [orb]; [rs|].
+    destruct ((id =? 11) && (255 <? len v)); [rs|].
+    destruct (set_refines l (id, v) Hs) as [E S]. rewrite E in *. rs.
+  - unfold add_bytes, URIPath, maxPathValue, uri_path.
+    destruct (b <? len v); cbn [orb]; [rs|].
+    destruct ((id =? 11) && (255 <? len v)); [rs|].
+    destruct (add_refines l (id, v) Hs) as [E S]. rewrite E in *. rs.
+  - unfold set_uint32. rewrite encode_uint32_spec by assumption.
+    destruct (b <? uint_len v); cbn [Z.eqb ETooSmall ENone]; [rs|].
+    destruct (set_refines l (id, uint_bytes v) Hs) as [E S]. rewrite E in *. rs.
+  - unfold add_uint32. rewrite encode_uint32_spec by assumption.
+    destruct (b <? uint_len v); cbn [Z.eqb ETooSmall ENone]; [rs|].
+    destruct (add_refines l (id, uint_bytes v) Hs) as [E S]. rewrite E in *. rs.
+  - contradiction.
+  - rewrite reset_options_to_spec. destruct (b <? sum_len ins); [rs|].
+    rs; apply sorted_fold_ref.
+  - rewrite clone_spec by assumption. cbn [Z.eqb ENone]. rs.
+  - rs; apply sorted_nil.
+Qed.
+
+(* a whole history of message.Options edits *)
+Definition orun (ops : list op) (l : list opt) : list opt :=
+  fold_left (fun acc o => fst (fst (ostep acc o))) ops l.
+
+Theorem orun_refines ops : forall l, sorted l -> Forall op_wf ops -> Forall not_path ops ->
+  orun ops l = ref_run true ops l /\ sorted (orun ops l).
+Proof.
+  induction ops as [|o ops IH]; intros l Hs Hwf Hnp; [split; [reflexivity|assumption]|].
+  inversion Hwf as [|? ? Hw1 Hw2]; subst. inversion Hnp as [|? ? Hn1 Hn2]; subst.
+  unfold orun, ref_run in *. cbn [fold_left].
+  pose proof (ostep_refines l o Hs Hw1 Hn1) as R. destruct (ostep l o) as [[l' u] e]. cbn [fst].
+  destruct R as [S R]. unfold ref_apply at 2. destruct (ref_step true l o) as [r|]; destruct R as [_ ->]; apply IH; assumption.
+Qed.
+
+(* pool.Message: the builder step either performs the reference's edit or
+   leaves the list unchanged *)
+Lemma ref_step_unbounded l o r : ref_step true l o = Some r -> ref_step false l o = Some r.
+Proof.
+  destruct o as [id v|id v|id|id v b|id v b|id v b|id v b|id p b|ins b| |]; cbn [ref_step andb orb]; try (intros H; exact H).
+  - destruct (b <? len v); cbn [orb]; [discriminate|auto].
+  - destruct (b <? len v); cbn [orb]; [discriminate|auto].
+  - destruct (b <? uint_len v); [discriminate|auto].
+  - destruct (b <? uint_len v); [discriminate|auto].
+  - destruct p; [auto|]. destruct (negb (segs_ok (z :: p))); cbn [orb]; [discriminate|].
+    destruct (b <? segs_total (z :: p)); [discriminate|auto].
+  - destruct (b <? sum_len ins); [discriminate|auto].
+Qed.
+
+Lemma with_retry_cases s f grow s' e : with_retry s f grow = (s', e) ->
+  (e = ENone /\ exists b u, f b = (m_opts s', u, ENone)) \/ (e <> ENone /\ m_opts s' = m_opts s).
+Proof.
+  unfold with_retry. set (r1 := f (m_vb s)).
+  destruct (snd r1 =? ETooSmall) eqn:Sm.
+  - destruct (f (m_vb s + grow (snd (fst r1)))) as [[o u] e'] eqn:F.
+    destruct (Z.eqb_spec e' ENone) as [->|Hne]; intros H; inversion H; subst; cbn [m_opts].
+    + left. split; [reflexivity|]. eexists _, _. exact F.
+    + right. split; [assumption|reflexivity].
+  - destruct r1 as [[o u] e'] eqn:F.
+    destruct (Z.eqb_spec e' ENone) as [->|Hne]; intros H; inversion H; subst; cbn [m_opts].
+    + left. split; [reflexivity|]. eexists _, _. exact F.
+    + right. split; [assumption|reflexivity].
+Qed.
+
+Definition mrefines (l : list opt) (o : op) (l' : list opt) (e : Z) : Prop :=
+  sorted l' /\ (e = ENone -> ref_step false l o = Some l') /\ (e <> ENone -> l' = l).
+
+Lemma retry_refines s o f grow s' e : sorted (m_opts s) ->
+  (forall b, let '(l', _, e') := f b in refines true (m_opts s) (o b) l' e') ->
+  (forall b b', ref_step false (m_opts s) (o b) = ref_step false (m_opts s) (o b')) ->
+  with_retry s f grow = (s', e) -> forall b0, mrefines (m_opts s) (o b0) (m_opts s') e.
+Proof.
+  intros Hs Hf Hb Hw b0. apply with_retry_cases in Hw as [[-> (b & u & F)]|[Hne E]].
+  - specialize (Hf b). rewrite F in Hf. destruct Hf as [S R]. split; [assumption|]. split; [|congruence].
+    intros _. rewrite (Hb b0 b). destruct (ref_step true (m_opts s) (o b)) as [r|] eqn:Rs.
+    + destruct R as [_ ->]. apply ref_step_unbounded. assumption.
+    + destruct R as [R _]. congruence.
+  - rewrite E. split; [assumption|]. split; [congruence|reflexivity].
+Qed.
+
+Lemma panics_e r s e : panics r = (s, e) -> fst r = s /\ (e = ENone <-> snd r = ENone).
+Proof.
+  destruct r as [s0 e0]. unfold panics. destruct (Z.eqb_spec e0 ENone) as [->|Hne]; intros H; inversion H; subst; cbn.
+  - split; [reflexivity|tauto].
+  - split; [reflexivity|]. unfold EPanic, ENone. split; [discriminate|intros; contradiction].
+Qed.
+
+Theorem mstep_refines s o : sorted (m_opts s) -> op_wf o -> not_path o ->
+  let '(s', e) := mstep s o in mrefines (m_opts s) o (m_opts s') e.
+Proof.
+  intros Hs Hwf Hnp. destruct (mstep s o) as [s' e] eqn:M.
+  destruct o as [id v|id v|id|id v b|id v b|id v b|id v b|id p b|ins b| |]; cbn [mstep op_wf not_path] in *.
+  - inversion M; subst; cbn [m_opts]. destruct (set_refines (m_opts s) (id, v) Hs) as [E S].
+    unfold mrefines. cbn [ref_step]. rewrite <- E. repeat split; [assumption|congruence].
+  - inversion M; subst; cbn [m_opts]. destruct (add_refines (m_opts s) (id, v) Hs) as [E S].
+    unfold mrefines. cbn [ref_step]. rewrite <- E. repeat split; [assumption|congruence].
+  - inversion M; subst; cbn [m_opts]. destruct (remove_refines (m_opts s) id Hs) as [E S].
+    unfold mrefines. cbn [ref_step]. rewrite <- E. repeat split; [assumption|congruence].
+  - apply panics_e in M as [M1 M2]. destruct (with_retry s _ _) as [s1 e1] eqn:W. cbn [fst snd] in *. subst s1.
+    pose proof (retry_refines s (fun b => OSetBytes id v b) _ _ s' e1 Hs
+      (fun b => ostep_refines (m_opts s) (OSetBytes id v b) Hs I I) (fun _ _ => eq_refl) W b) as (R1 & R2 & R3).
+    split; [assumption|]. split; intros He; [apply R2; tauto|apply R3; tauto].
+  - apply panics_e in M as [M1 M2]. destruct (with_retry s _ _) as [s1 e1] eqn:W. cbn [fst snd] in *. subst s1.
+    pose proof (retry_refines s (fun b => OAddBytes id v b) _ _ s' e1 Hs
+      (fun b => ostep_refines (m_opts s) (OAddBytes id v b) Hs I I) (fun _ _ => eq_refl) W b) as (R1 & R2 & R3).
+    split; [assumption|]. split; intros He; [apply R2; tauto|apply R3; tauto].
+  - apply panics_e in M as [M1 M2]. destruct (with_retry s _ _) as [s1 e1] eqn:W. cbn [fst snd] in *. subst s1.
+    pose proof (retry_refines s (fun b => OSetU32 id v b) _ _ s' e1 Hs
+      (fun b => ostep_refines (m_opts s) (OSetU32 id v b) Hs Hwf I) (fun _ _ => eq_refl) W b) as (R1 & R2 & R3).
+    split; [assumption|]. split; intros He; [apply R2; tauto|apply R3; tauto].
+  - apply panics_e in M as [M1 M2]. destruct (with_retry s _ _) as [s1 e1] eqn:W. cbn [fst snd] in *. subst s1.
+    pose proof (retry_refines s (fun b => OAddU32 id v b) _ _ s' e1 Hs
+      (fun b => ostep_refines (m_opts s) (OAddU32 id v b) Hs Hwf I) (fun _ _ => eq_refl) W b) as (R1 & R2 & R3).
+    split; [assumption|]. split; intros He; [apply R2; tauto|apply R3; tauto].
+  - contradiction.
+  - apply panics_e in M as [M1 M2]. destruct (with_retry s _ _) as [s1 e1] eqn:W. cbn [fst snd] in *. subst s1.
+    pose proof (retry_refines s (fun b => OResetTo ins b) _ _ s' e1 Hs
+      (fun b => ostep_refines (m_opts s) (OResetTo ins b) Hs I I) (fun _ _ => eq_refl) W b) as (R1 & R2 & R3).
+    split; [assumption|]. split; intros He; [apply R2; tauto|apply R3; tauto].
+  - (* Clone into a fresh message: 256 bytes, grown by the total when too small *)
+    unfold with_retry in M. cbv beta in M. rewrite !reset_options_to_spec in M.
+    rewrite (fold_ref_sorted (m_opts s) []) in M by assumption. cbn [app m_new m_vb m_opts] in M.
+    unfold valueBufferSize in M. pose proof (len_nonneg (m_opts s)).
+    assert (Hsum : 0 <= sum_len (m_opts s)).
+    { unfold sum_len. generalize (m_opts s). intros l0.
+      assert (G : forall u, 0 <= u -> 0 <= fold_left (fun a o => a + len (oval o)) l0 u).
+      { induction l0 as [|x l0 IH]; intros u Hu; cbn [fold_left]; [assumption|].
+        apply IH. pose proof (len_nonneg (oval x)). lia. }
+      apply G. lia. }
+    destruct (Z.ltb_spec 256 (sum_len (m_opts s))) as [H1|H1]; cbn [fst snd Z.eqb ETooSmall ENone Pos.eqb] in M.
+    + destruct (Z.ltb_spec (256 + sum_len (m_opts s)) (sum_len (m_opts s))); [lia|].
+      cbn [Z.eqb ENone panics] in M. inversion M; subst. unfold mrefines. cbn [ref_step m_opts]. rs; congruence.
+    + cbn [Z.eqb ENone panics] in M. inversion M; subst. unfold mrefines. cbn [ref_step m_opts]. rs; congruence.
+  - inversion M; subst. unfold mrefines. cbn [ref_step m_new m_opts]. rs; [apply sorted_nil|congruence].
+Qed.
